@@ -427,6 +427,84 @@ Section RemH.
     Qed.
   End Core.
 
+  (** ** the links along the path *)
+  Section PathFacts.
+    Variable h : heap.
+    Variable kk : key.
+    Variable r0 : nat.
+    Notation B := (nbp h).
+    Notation K := (nkey h).
+
+    (** the side of node [x] the path takes (the root only has a left link) *)
+    Definition sd (x : nat) : bool := if Nat.eqb x r0 then false else PatInv.pbit kk (B x).
+
+    (** the path-side link of [x] is [y], the other link is not *)
+    Definition plinkP (x y : nat) : Prop :=
+      exists xn, nth_error h x = Some xn /\ (x = r0 \/ 1 <= n_bp xn) /\
+        (if sd x then n_right xn = Some y /\ n_left xn <> Some y
+         else n_left xn = Some y /\ n_right xn <> Some y).
+
+    Lemma path_facts : forall S pbp x0, Rep h pbp x0 S -> forall p pp,
+      is_leaf S = false -> tbits B K S -> ~ In r0 (inners S) ->
+      plinkP p x0 -> B p <= pbp ->
+      (In (ts B kk S) (inners S) -> In (ts B kk S) (pathin B kk S)) ->
+      let rp := fst (referrer h (ByKey kk) S pp p) in
+      let r := snd (referrer h (ByKey kk) S pp p) in
+      let n := ts B kk S in
+      plinkP rp r /\ plinkP r n /\ In r (inners S) /\
+      (In n (inners S) -> plinkP (nparent h (ByKey kk) n S p) n /\ B (nparent h (ByKey kk) n S p) < B n) /\
+      (forall x, In x (pathin B kk S) -> B x <= B r).
+    Proof.
+      induction 1 as [|pbp c cn l rl tl tr Hc LT HL HR Rl IHl Rr IHr];
+        intros p pp NLf TB NR0 PP BP NP; [discriminate|].
+      assert (NB : B c = n_bp cn) by (unfold nbp; now rewrite Hc).
+      assert (RW : Rep h pbp c (PNode c tl tr)) by (eapply RepNode; eauto).
+      assert (LR : l <> rl) by (eapply links_distinct; eauto).
+      assert (CR0 : c <> r0) by (intros ->; apply NR0; simpl; auto).
+      assert (SD : sd c = PatInv.pbit kk (n_bp cn)).
+      { unfold sd. rewrite (proj2 (Nat.eqb_neq _ _) CR0). now rewrite NB. }
+      pose proof TB as [B1 [_ [_ [_ [Tl Tr]]]]].
+      cbn [ts referrer nparent dside pathin inners] in *. unfold pchild in *. rewrite NB in *.
+      destruct (PatInv.pbit kk (n_bp cn)) eqn:EB.
+      - assert (PC : plinkP c rl).
+        { exists cn. split; auto. split; [right; lia|]. rewrite SD. split; congruence. }
+        destruct tr as [j|j ta tb].
+        + assert (EJ : j = rl) by (inversion Rr; reflexivity). subst j.
+          cbn [referrer ts fst snd nparent pathin inners] in *.
+          split; [exact PP|]. split; [exact PC|]. split; [left; reflexivity|]. split.
+          * intros I. destruct (NP I) as [E | []]. subst rl. rewrite Nat.eqb_refl. split; auto. rewrite NB. lia.
+          * intros x [<- | []]. lia.
+        + set (tr := PNode j ta tb) in *.
+          destruct (IHr c p eq_refl Tr) as [Q1 [Q2 [Q3 [Q4 Q5]]]]; auto; try lia.
+          { intros I. apply NR0. right. apply in_or_app. auto. }
+          { intros I. destruct NP as [E | Q]; auto. right. apply in_or_app. auto.
+            exfalso. pose proof (rep_inner_bp _ _ _ _ Rr c) as W. rewrite <- E in I. specialize (W I). rewrite NB in W. lia. }
+          split; auto. split; auto. split; [right; apply in_or_app; auto|]. split.
+          * intros I. destruct (Nat.eqb_spec c (ts B kk tr)) as [E|NE].
+            -- rewrite <- E. split; auto. rewrite NB. lia.
+            -- apply Q4. destruct (NP I) as [E | Q]; [congruence | now apply (pathin_inners B kk)].
+          * intros x [<- | Hx]; auto. pose proof (rep_inner_bp _ _ _ _ Rr _ Q3). lia.
+      - assert (PC : plinkP c l).
+        { exists cn. split; auto. split; [right; lia|]. rewrite SD. split; congruence. }
+        destruct tl as [j|j ta tb].
+        + assert (EJ : j = l) by (inversion Rl; reflexivity). subst j.
+          cbn [referrer ts fst snd nparent pathin inners] in *.
+          split; [exact PP|]. split; [exact PC|]. split; [left; reflexivity|]. split.
+          * intros I. destruct (NP I) as [E | []]. subst l. rewrite Nat.eqb_refl. split; auto. rewrite NB. lia.
+          * intros x [<- | []]. lia.
+        + set (tl := PNode j ta tb) in *.
+          destruct (IHl c p eq_refl Tl) as [Q1 [Q2 [Q3 [Q4 Q5]]]]; auto; try lia.
+          { intros I. apply NR0. right. apply (in_or_app (inners tl) (inners tr)). auto. }
+          { intros I. destruct NP as [E | Q]; auto. right. apply (in_or_app (inners tl) (inners tr)). auto.
+            exfalso. pose proof (rep_inner_bp _ _ _ _ Rl c) as W. rewrite <- E in I. specialize (W I). rewrite NB in W. lia. }
+          split; auto. split; auto. split; [right; apply (in_or_app (inners tl) (inners tr)); auto|]. split.
+          * intros I. destruct (Nat.eqb_spec c (ts B kk tl)) as [E|NE].
+            -- rewrite <- E. split; auto. rewrite NB. lia.
+            -- apply Q4. destruct (NP I) as [E | Q]; [congruence | now apply (pathin_inners B kk)].
+          * intros x [<- | Hx]; auto. pose proof (rep_inner_bp _ _ _ _ Rl _ Q3). lia.
+    Qed.
+  End PathFacts.
+
   (** [relinked h H' kk n r rp np co]: heap [H'] implements the re-linking of remove on heap [h] *)
   Definition relinked (h H' : heap) (kk : key) (n r rp np co : nat) : Prop :=
     (forall x xn, nth_error h x = Some xn -> x <> r ->
